@@ -198,6 +198,17 @@ CHECKS = {
              'adv = 1 for Euler, CN-RK2, RK3, SIL3 (certificates on the regenerated tables) and within 1e-12 of one for the 13-digit RK4 table; filters leave scalar leaves alone and fix the (0,0) entry; any linear functional that vanishes on both tendencies and is passed through by the inverse (the (0,0) means of vorticity / divergence, the shallow-water mean thickness: checked on the shallow-water model and the real class each run) is conserved by every integrator; a uniform tracer has zero tendency given the round-trip and div(uv) = delta laws.',
         note=TB + 'Moist classes: (0,0) entries of the humidity corrections are quadrature-level (1e-19), stated to rounding; laws of the horizontal operators are hypotheses validated on the real grids.',
         design='6/C11'),
+    'C10': dict(
+        technique='Lean 4 theorems: abstract equivariance of the Dynamics / shallow-water models and of every integrator under any action commuting with the horizontal operations (signs for the mirror), '
+                  'by induction over arbitrary histories; concrete rotation and mirror actions on the list model of both transform layouts for all sizes; the hypotheses of the abstract theorem are validated on the real Grid on every run; '
+                  'differential correspondence of every model op; rotated / mirrored states vs transformed tendencies and trajectories on the real equation classes',
+        text='Machine-checked proof: (T10.1) for any symmetry (linear rho on modal fields, algebra homomorphism on nodal fields, sign eps with eps^2 = 1) that commutes with every horizontal operation (sign eps on cos_lat_d_dlat, sec_lat_d_dlat_cos2, sin(lat); vorticity odd), explicit_terms, implicit_terms and implicit_inverse of the dry, with-time, moist and cloud classes '
+             'over the transformed orography, and of shallow water with any number of layers, commute with the action (an error is raised for both or neither); every integrator step (Euler pair, CN-RK2, every low-storage RK, every Butcher tableau, leapfrog, time-reversed) is intertwined, hence whole trajectories of any length with any conjugated filters (induction), including Robert-Asselin leapfrog runs. '
+             '(T10.2) for all N, M, k: the 2x2 rotation of each (cos, sin) pair by 2 pi m k / N intertwines synthesis and analysis with roll k in both layouts (with padding), and commutes with d_dlon, with every operator acting on l only and with the latitude derivatives; real cos/sin satisfy the table hypothesis for every N > 0. '
+             '(T10.3) the sign (-1)^(l+m) (Legendre parity from C01) intertwines synthesis / analysis with the latitude flip for symmetric nodes and weights, the latitude derivatives anticommute with it, d_dlon and l-multipliers commute. '
+             'PARTIAL (named): the abstract carriers are not instantiated with the list model inside Lean; the operation-wise commutation hypotheses are proved for the list model (T10.2/T10.3) and validated on the real Grid each run (2.6e-15); node / weight symmetry and the trig tables are validated on the arrays the code computed.',
+        note=TB + 'Fast-layout d_dlon commutation is for frequency_offset = 0 (unsharded); sharded execution is C07. equiangular_with_poles excluded for dynamics (sec^2 infinite at the poles by construction).',
+        design='6/C10'),
 }
 
 NOT_YET = {
